@@ -2,10 +2,10 @@ SPECIFICATION Spec
 CONSTANTS
   MaxNodes = 6
   Keys = {1, 2}
-  Leafs = {101}
+  Leafs = {101, 160}
   Shapes = {200, 211, 220}
   MaxLen = 2
-  Acts = {"dict", "list", "flags"}
+  Acts = {"dict", "list", "flags", "scope"}
   Mirror = FALSE
   MaxLevel = 3
   InitKinds <- IK_DictList
